@@ -1,6 +1,9 @@
 """Drive the REAL ProvenanceGraph.build_graph / create_graph_mapper on a generated provenance relation stored in a real
 (in-memory sqlite) StreamFlow database. Availability = the persisted `recoverable` flag of plain tokens
-(`Token.is_available`), job tokens of recovering jobs through a stub `failure_manager.is_recovering`."""
+(`Token.is_available`), job tokens of recovering jobs through a stub `failure_manager.is_recovering`.
+Tokens with a `copies` list are real CWLFileTokens whose single path is registered in the real DataManager on one primary data
+location per entry (distinct local deployments, related to each other like the copies a transfer makes); entry k says whether
+copy k still exists on disk, so `FileToken.is_available` (any copy exists) runs unmodified."""
 from __future__ import annotations
 
 import asyncio
@@ -15,6 +18,9 @@ async def _run(case: dict) -> dict:
     from streamflow.main import build_context
     from streamflow.recovery.utils import ProvenanceGraph
     from streamflow.workflow.token import JobToken
+    from streamflow.core.deployment import ExecutionLocation
+    LOCAL_LOCATION = "__LOCAL__"
+    from streamflow.cwl.token import CWLFileToken
 
     root = tempfile.mkdtemp(prefix="sfv-prov-")
     context = build_context({"database": {"type": "default", "config": {"connection": ":memory:"}}, "path": root})
@@ -28,6 +34,21 @@ async def _run(case: dict) -> dict:
             if t.get("job"):
                 tok = JobToken(value=Job(name=f"/step{tid}/0", workflow_id=wf.persistent_id, inputs={}, input_directory=None,
                                          output_directory=None, tmp_directory=None), tag="0", recoverable=bool(t["avail"]))
+            elif "copies" in t:
+                paths = [os.path.join(root, f"loc{k}", f"t{tid}", "out.txt") for k in range(max(1, len(t["copies"])))]
+                dlocs = []
+                for k, present in enumerate(t["copies"]):
+                    loc = (ExecutionLocation(deployment=LOCAL_LOCATION, name=LOCAL_LOCATION, local=True) if k == 0 else
+                           ExecutionLocation(deployment=f"replica{k}", name=f"replica{k}", local=True))
+                    if present:
+                        os.makedirs(os.path.dirname(paths[k]), exist_ok=True)
+                        with open(paths[k], "w") as fh:
+                            fh.write(str(tid))
+                    dlocs.append(context.data_manager.register_path(loc, paths[k], relpath="out.txt"))
+                for d in dlocs[1:]:
+                    context.data_manager.register_relation(dlocs[0], d)
+                tok = CWLFileToken(value={"class": "File", "path": paths[0], "basename": "out.txt"}, tag=f"0.{tid}",
+                                   recoverable=bool(t["avail"]))
             else:
                 tok = Token(value=tid, tag=f"0.{tid}", recoverable=bool(t["avail"]))
             await tok.save(context.database, port_id=ports[tid % len(ports)].persistent_id)
